@@ -16,7 +16,7 @@
 (* Sequential execution folds the transactions over the state and produces the true BAL.     *)
 (* Parallel execution gives transaction i the view  base (+) given BAL restricted to         *)
 (* indices < i  (ReaderWithBlockLevelAccessList), runs the transactions on W workers that    *)
-(* pull indices from an atomic cursor and finish in any order, rebuilds a BAL from the       *)
+(* pull indices from an atomic cursor, begin and finish in any order, rebuilds a BAL from the       *)
 (* per-transaction results, computes the post state by applying the GIVEN BAL to the base    *)
 (* (StateDB.ApplyBlockAccessList) and validates: rebuilt BAL = given BAL, outputs (receipts, *)
 (* gas) = header, post state = header (BlockValidator.ValidateState).                        *)
@@ -101,20 +101,34 @@ HonestBlock(txs, base) ==
   [bal |-> TrueBAL(txs, base), outs |-> Outs(SeqResults(txs, base), Len(txs)), post |-> SeqFinal(txs, base)]
 
 (* ---- the worker pool of executeTransactionsParallel ---- *)
-(* pool = [cursor, running]: workers pull the next index from an atomic cursor; at most w  *)
-(* transactions are in flight; completions come in any order                               *)
-PoolInit == [cursor |-> 1, running |-> {}]
-MayStart(pool, n, w) == pool.cursor <= n /\ Cardinality(pool.running) < w
-Started(pool)        == [cursor |-> pool.cursor + 1, running |-> pool.running \cup {pool.cursor}]
+(* pool = [cursor, fetched, running]: a worker FETCHES the next index from an atomic cursor *)
+(* (indices are handed out in order), later BEGINS executing it - a worker may be preempted  *)
+(* between the two, so executions begin in any order among the fetched indices - and         *)
+(* FINISHES (publishes the result).  At most w indices are in flight (fetched or running).   *)
+PoolInit == [cursor |-> 1, fetched |-> {}, running |-> {}]
+InFlight(pool)       == pool.fetched \cup pool.running
+MayFetch(pool, n, w) == pool.cursor <= n /\ Cardinality(InFlight(pool)) < w
+Fetched(pool)        == [pool EXCEPT !.cursor = @ + 1, !.fetched = @ \cup {pool.cursor}]
+MayBegin(pool, i)    == i \in pool.fetched
+Begun(pool, i)       == [pool EXCEPT !.fetched = @ \ {i}, !.running = @ \cup {i}]
 Finished(pool, i)    == [pool EXCEPT !.running = @ \ {i}]
-AllDone(pool, n)     == pool.cursor = n + 1 /\ pool.running = {}
+AllDone(pool, n)     == pool.cursor = n + 1 /\ pool.fetched = {} /\ pool.running = {}
 
-(* order: sequence of <<"s", i>> (start) / <<"d", i>> (done) events *)
+(* fetches are not observable; the fewest fetches that let index i begin *)
+RECURSIVE FetchUpTo(_, _, _, _)
+FetchUpTo(pool, i, n, w) ==
+  IF i < pool.cursor THEN pool
+  ELSE IF MayFetch(pool, n, w) THEN FetchUpTo(Fetched(pool), i, n, w)
+  ELSE pool
+
+(* order: sequence of <<"s", i>> (execution of i begins) / <<"d", i>> (i finished) events *)
 RECURSIVE LegalFrom(_, _, _, _, _)
 LegalFrom(order, k, pool, n, w) ==
   IF k > Len(order) THEN AllDone(pool, n)
   ELSE LET e == order[k] IN
-       IF e[1] = "s" THEN MayStart(pool, n, w) /\ e[2] = pool.cursor /\ LegalFrom(order, k + 1, Started(pool), n, w)
+       IF e[1] = "s"
+       THEN LET p2 == FetchUpTo(pool, e[2], n, w)
+            IN  MayBegin(p2, e[2]) /\ LegalFrom(order, k + 1, Begun(p2, e[2]), n, w)
        ELSE e[2] \in pool.running /\ LegalFrom(order, k + 1, Finished(pool, e[2]), n, w)
 LegalSchedule(order, n, w) == LegalFrom(order, 1, PoolInit, n, w)
 
